@@ -1,138 +1,24 @@
 /-
 Scratch prototype for C01-C03 (tie): an EXECUTABLE checker for single actions of the abstract raft
-with crashes, proved sound w.r.t. the step relation.  The harness maps every event of a real run to
-actions; the Lean driver folds `apply` over them.  If the fold succeeds the observed run is, by
+with crashes, proved sound w.r.t. the step relation.  The checker itself (`Action`, `apply`, `run`) lives in the
+core-only module ExecCore.lean (it is linked into the native driver); this file proves it sound.
+The harness maps every event of a real run to actions; the Lean driver folds `apply` over them.  If the fold succeeds the observed run is, by
 `run_sound`, an execution of the system for which the safety theorems are proved; if it fails, the
 first action whose precondition is false names the raft rule the implementation broke.
 -/
 import ZanVerif.Raft.RaftCrashSafety
+import ZanVerif.Raft.ExecCore
 namespace Z.RaftAbs
 open Z.LogMatch
 
-inductive Action
-  | campaign (c t : Nat)
-  | grant (q t c : Nat)
-  | becomeLeader (c t : Nat) (Q : List Nat)
-  | propose (c d : Nat)
-  | sendApp (c prev n cm : Nat)
-  | recvApp (q : Nat) (m : AppMsg)
-  | ackStale (q : Nat) (m : AppMsg)
-  | restore (q : Nat) (m : AppMsg)
-  | sendHb (c q cm k : Nat)
-  | recvHb (q : Nat) (h : Hb)
-  | commitLeader (c k : Nat) (Q : List Nat)
-  | bump (j t : Nat)
-  | restart (j : Nat)
-  | flush (j : Nat)
-  | crash (j : Nat)
-
-instance (a b : Log) : Decidable (UpToDate a b) := by unfold UpToDate; exact inferInstance
-instance (vs Q : List Nat) : Decidable (IsQuorum vs Q) := by unfold IsQuorum; exact inferInstance
-
-/-- decidable form of `sacked` -/
-def sackedD (s : St) (q t k : Nat) : Prop := ∃ x ∈ s.sacks, x.1 = q ∧ x.2.1 = t ∧ k ≤ x.2.2
 theorem sackedD_sound {s : St} {q t k : Nat} (h : sackedD s q t k) : sacked s q t k := by
   obtain ⟨⟨q', t', k'⟩, hx, h1, h2, h3⟩ := h
   simp only at h1 h2 h3
   subst h1; subst h2
   exact ⟨k', h3, hx⟩
-instance (s : St) (q t k : Nat) : Decidable (sackedD s q t k) := by unfold sackedD; exact inferInstance
-
-/-- decidable form of "q has not voted for anybody else in t" -/
-def noOtherVote (s : St) (q t c : Nat) : Prop := ∀ x ∈ s.voted, x.1 = q → x.2.1 = t → x.2.2 = c
 theorem noOtherVote_sound {s : St} {q t c : Nat} (h : noOtherVote s q t c) :
     ∀ c', (q, t, c') ∈ s.voted → c' = c := fun c' hc' => h (q, t, c') hc' rfl rfl
-instance (s : St) (q t c : Nat) : Decidable (noOtherVote s q t c) := by unfold noOtherVote; exact inferInstance
-
 variable (vs : List Nat)
-
-def apply (s : St) : Action → Option St
-  | .campaign c t =>
-    if s.term c < t then some { s with
-        term := upd s.term c t
-        role := upd s.role c Role.candidate
-        camp := (c, t) :: s.camp
-        candLog := updP s.candLog (c, t) (s.log c) } else none
-  | .grant q t c =>
-    if (c, t) ∈ s.scamp ∧ s.term q ≤ t ∧ q ≠ c ∧ UpToDate (s.candLog (c, t)) (s.log q) ∧
-        noOtherVote s q t c ∧ (q, t) ∉ s.camp then some { s with
-        term := upd s.term q t
-        role := if s.term q < t then upd s.role q Role.follower else s.role
-        voted := (q, t, c) :: s.voted } else none
-  | .becomeLeader c t Q =>
-    if s.role c = Role.candidate ∧ s.term c = t ∧ (c, t) ∈ s.scamp ∧ IsQuorum vs Q ∧
-        (∀ q ∈ Q, q = c ∨ (q, t, c) ∈ s.svoted) then some { s with
-        role := upd s.role c Role.leader
-        log := upd s.log c (s.log c ++ [⟨t, 0⟩])
-        tlog := upd s.tlog t (s.log c ++ [⟨t, 0⟩])
-        elected := (c, t) :: s.elected
-        acks := (c, t, (s.log c).length + 1) :: s.acks } else none
-  | .propose c d =>
-    if s.role c = Role.leader then some { s with
-        log := upd s.log c (s.log c ++ [⟨s.term c, d⟩])
-        tlog := upd s.tlog (s.term c) (s.log c ++ [⟨s.term c, d⟩])
-        acks := (c, s.term c, (s.log c).length + 1) :: s.acks } else none
-  | .sendApp c prev n cm =>
-    if s.role c = Role.leader ∧ prev + n ≤ (s.log c).length ∧ cm ≤ s.commit c then some { s with
-        msgs := ⟨s.term c, prev, n, ((s.log c).drop prev).take n, cm⟩ :: s.msgs } else none
-  | .recvApp q m =>
-    if m ∈ s.msgs ∧ s.term q ≤ m.term ∧ (s.role q = Role.leader → s.term q < m.term) ∧
-        m.prev ≤ (s.log q).length ∧ termAt (s.log q) m.prev = termAt (s.tlog m.term) m.prev then
-      some { s with
-        term := upd s.term q m.term
-        role := upd s.role q Role.follower
-        log := upd s.log q (maybeAppend (s.log q) m.prev m.ents)
-        commit := upd s.commit q (max (s.commit q) (min m.commit (m.prev + m.n)))
-        acks := (q, m.term, m.prev + m.n) :: s.acks } else none
-  | .ackStale q m =>
-    if m ∈ s.msgs ∧ s.term q ≤ m.term ∧ (s.role q = Role.leader → s.term q < m.term) ∧
-        m.prev < s.commit q then some { s with
-        term := upd s.term q m.term
-        role := upd s.role q Role.follower
-        acks := (q, m.term, s.commit q) :: s.acks } else none
-  | .restore q m =>
-    if m ∈ s.msgs ∧ s.term q ≤ m.term ∧ (s.role q = Role.leader → s.term q < m.term) ∧
-        m.n = 0 ∧ m.commit = m.prev ∧ s.commit q < m.prev ∧
-        ¬ (m.prev ≤ (s.log q).length ∧ termAt (s.log q) m.prev = termAt (s.tlog m.term) m.prev) then
-      some { s with
-        term := upd s.term q m.term
-        role := upd s.role q Role.follower
-        log := upd s.log q ((s.tlog m.term).take m.prev)
-        commit := upd s.commit q m.prev
-        acks := (q, m.term, m.prev) :: s.acks } else none
-  | .sendHb c q cm k =>
-    if s.role c = Role.leader ∧ cm ≤ s.commit c ∧ sackedD s q (s.term c) k ∧ cm ≤ k then
-      some { s with hbs := ⟨s.term c, q, cm⟩ :: s.hbs } else none
-  | .recvHb q h =>
-    if h ∈ s.hbs ∧ h.to = q ∧ s.term q ≤ h.term ∧ (s.role q = Role.leader → s.term q < h.term) then
-      some { s with
-        term := upd s.term q h.term
-        role := upd s.role q Role.follower
-        commit := upd s.commit q (max (s.commit q) h.commit) } else none
-  | .commitLeader c k Q =>
-    if s.role c = Role.leader ∧ 1 ≤ k ∧ k ≤ (s.log c).length ∧ termAt (s.log c) k = s.term c ∧
-        IsQuorum vs Q ∧ (∀ q ∈ Q, sackedD s q (s.term c) k) then
-      some { s with commit := upd s.commit c (max (s.commit c) k) } else none
-  | .bump j t =>
-    if s.term j < t then some { s with
-        term := upd s.term j t
-        role := upd s.role j Role.follower } else none
-  | .restart j => some { s with role := upd s.role j Role.follower }
-  | .flush j => some { s with
-        dterm := upd s.dterm j (s.term j)
-        dlog := upd s.dlog j (s.log j)
-        dcommit := upd s.dcommit j (s.commit j)
-        scamp := s.camp.filter (fun x => x.1 = j) ++ s.scamp
-        svoted := s.voted.filter (fun x => x.1 = j) ++ s.svoted
-        sacks := s.acks.filter (fun x => x.1 = j) ++ s.sacks }
-  | .crash j => some { s with
-        term := upd s.term j (s.dterm j)
-        role := upd s.role j Role.follower
-        log := upd s.log j (s.dlog j)
-        commit := upd s.commit j (s.dcommit j)
-        camp := s.camp.filter (fun x => decide (x.1 ≠ j) || decide (x ∈ s.scamp))
-        voted := s.voted.filter (fun x => decide (x.1 ≠ j) || decide (x ∈ s.svoted))
-        acks := s.acks.filter (fun x => decide (x.1 ≠ j) || decide (x ∈ s.sacks)) }
 
 /-- **soundness of the executable step checker** -/
 theorem apply_sound {s s' : St} {a : Action} (h : apply vs s a = some s') : Step vs s s' := by
@@ -198,12 +84,6 @@ theorem apply_sound {s s' : St} {a : Action} (h : apply vs s a = some s') : Step
   | restart j => simp only [apply] at h; injection h with h; subst h; exact Step.restart s j
   | flush j => simp only [apply] at h; injection h with h; subst h; exact Step.flush s j
   | crash j => simp only [apply] at h; injection h with h; subst h; exact Step.crash s j
-
-def run (s : St) : List Action → Option St
-  | [] => some s
-  | a :: as => match apply vs s a with
-    | some s' => run s' as
-    | none => none
 
 /-- a run accepted by the checker is an execution of the proved system -/
 theorem run_sound : ∀ (as : List Action) {s s' : St}, Reach vs s → run vs s as = some s' → Reach vs s' := by
